@@ -8,7 +8,9 @@ func init() {
 		Outside:     []string{"dedicatedClusterClient and sentinel dedicated clients", "concurrent schedules of the other callers (they run between two session steps)"},
 		Bounds:      map[string]any{"quick": "2 entry styles × invalidation callback on/off × double release", "thorough": "same"},
 		specs: func(tier string) []specRef {
-			return []specRef{hsd(rootPkg, "VerifC25_dedicated", nil, 0, 100000, 900, "done", "trackingoff")}
+			return []specRef{hsd(rootPkg, "VerifC25_dedicated", nil, 0, 100000, 900, "done", "trackingoff"),
+				// release racing with Close / a second release of the same dedicated client
+				hsd(rootPkg, "VerifC25_concurrentRelease", nil, q(tier, 2, 3), 2000000, 1800, "released")}
 		},
 	}
 }
